@@ -141,7 +141,7 @@ def check_c03(pid, tier, seed, replay):
     work = tmpdir("c03_T")
     cpath = os.path.join(work, "cases.json")
     M.write_cases(cpath, tc)
-    obs = M.run_obs(ck, cpath, "c03_T", levels="", clevels="0,1,2", bound=2200, timeout_ms=1500)
+    obs = M.run_obs(ck, cpath, "c03_T", levels="", clevels="0,1,2", bound=1100, timeout_ms=1000)
     M.validate_traces(ck, obs, 14, classify_c03, "T")
     progs += len(tc)
     # label / conditional jump / return-jump stress (several return jumps after one label jump, returns
